@@ -128,7 +128,9 @@ fn gen_knots(rng: &mut Rng, lite: bool) -> Knots {
         1 => ("spacing:ratio<=1e2", 1e2),
         _ => ("spacing:ratio<=1e6", 1e6),
     };
-    let scale = 10f64.powf(rng.range(-3.0, 3.0));
+    // the absolute scale of the abscissae is arbitrary (the quantifier bounds spacing *ratios*):
+    // mostly 1e-3..1e3, sometimes 2^-60..2^60 so that spacings far below/above 1 occur
+    let scale = if rng.chance(0.25) { 2f64.powi(rng.int(-60, 60) as i32) } else { 10f64.powf(rng.range(-3.0, 3.0)) };
     let mut x = Vec::with_capacity(n);
     let mut cur = rng.range(-100.0, 100.0) * scale;
     x.push(cur);
@@ -140,6 +142,18 @@ fn gen_knots(rng: &mut Rng, lite: bool) -> Knots {
         }
         x.push(nx);
         cur = nx;
+    }
+    // sometimes put a knot exactly at 0.0 (signed-zero targets are then in range)
+    if rng.chance(0.15) {
+        let j = match rng.usize(0, 2) {
+            0 => 0,
+            1 => n - 1,
+            _ => rng.usize(0, n - 1),
+        };
+        let shifted: Vec<f64> = x.iter().map(|v| v - x[j]).collect();
+        if shifted.windows(2).all(|w| w[1] > w[0]) {
+            x = shifted;
+        }
     }
     let (yclass, y): (&'static str, Vec<f64>) = match rng.usize(0, 5) {
         0 | 1 => {
@@ -206,6 +220,16 @@ fn one_set(cfg: &Cfg, rng: &mut Rng, rep: &mut Report) {
     let mut tg: Vec<(f64, &'static str)> = Vec::new();
     for i in pick_idx(rng, n, 8) {
         tg.push((x[i], "target:knot"));
+        if x[i] == 0.0 {
+            // a knot at zero is hit by both signed zeros
+            tg.push((-x[i], "target:knot"));
+        }
+    }
+    if let Some(i) = x.iter().position(|&v| v == 0.0) {
+        tg.push((0.0, "target:knot"));
+        tg.push((-0.0, "target:knot"));
+        rep.seen("knots:zero-knot", 1);
+        let _ = i;
     }
     for i in pick_idx(rng, n - 1, 8) {
         let m = 0.5 * x[i] + 0.5 * x[i + 1];
